@@ -653,7 +653,8 @@ impl Recorder {
         }
         let cb = self.callback.lock().unwrap().clone();
         if let Some(cb) = cb {
-            cb("Sys", &[], pos);
+            // (the name tells which call on which file returned: crash images can be aimed at it)
+            cb(&format!("Sys:{call}:{name}"), &[], pos);
         }
     }
     fn hook(&self, name: &str, args: &[u64]) {
@@ -707,6 +708,15 @@ impl Recorder {
     pub fn len(&self) -> usize {
         self.events.lock().unwrap().len()
     }
+}
+
+/// One enact step for single-threaded drivers: an enact call WAITS for the cleanup worker when more
+/// than MAX_LOG_FILES logs are dirty; with no worker threads the driver cleans first.
+pub fn enact_one_guarded(db: &Db) -> parity_db::Result<bool> {
+    if db.verif_pipeline_sizes().2 >= 4 {
+        db.clean_logs()?;
+    }
+    db.verif_enact_one()
 }
 
 pub fn catch<R>(f: impl FnOnce() -> R) -> Result<R, String> {
